@@ -22,6 +22,7 @@ func verif_C18_script() {
 	nt := nondetInt(1, T)
 	c, vc := verifClient("", nil)
 	c.lmtp = true
+	segmented := nondetBool()
 	for t := 0; t < nt; t++ {
 		// chosen per transaction: a later transaction must not inherit the
 		// earlier one's callback
@@ -51,15 +52,26 @@ func verif_C18_script() {
 				script += "250 2.0.0 <" + addr + "> delivered\r\n"
 				want = append(want, vstatus{addr, 0})
 			} else {
-				code := []int{450, 550}[verifChoice(2)]
-				script += strconv.Itoa(code) + " " + strconv.Itoa(code/100) + ".2.0 <" + addr + "> refused\r\n"
+				code := []int{450, 550, 552}[verifChoice(3)]
+				enh := strconv.Itoa(code/100) + ".2.0"
+				if code == 552 {
+					enh = "5.3.4" // what a server says about an over-size message
+				}
+				script += strconv.Itoa(code) + " " + enh + " <" + addr + "> refused\r\n"
 				want = append(want, vstatus{addr, code})
 				anyRefusal = true
 			}
 		}
 		start := len(vc.in)
 		vc.in = append(vc.in, script...)
-		_ = start
+		if segmented {
+			// every reply line arrives in a network read of its own
+			for i := start; i < len(vc.in); i++ {
+				if vc.in[i] == '\n' {
+					vc.cuts = append(vc.cuts, i+1)
+				}
+			}
+		}
 		verifAssert(c.Mail("s"+strconv.Itoa(t)+"@v", nil) == nil, "C18.mail-accepted")
 		for i := 0; i < nr; i++ {
 			addr := "r" + strconv.Itoa(t) + strconv.Itoa(i) + "@v"
